@@ -37,6 +37,40 @@ class MQHarness(ec.Harness):
         return super().classify(ev)
 
 
+class MQ2Harness(ec.Harness):
+    """several MultiQueueSchedulers in one Environment: kernel Stores are named per instance ('tok@A', 'f:3@B')"""
+    insts = ()
+    tags = ()
+
+    def classify(self, ev):
+        res = getattr(ev, "resource", None)
+        if res is not None:
+            tn = type(ev).__name__
+            hits = []
+            for s, tag in zip(self.insts, self.tags):
+                if res is s.packets_available:
+                    hits.append("tok@" + tag)
+                for f, st in list(s.stores.items()):
+                    if st is res:
+                        hits.append("f:%d@%s" % (f, tag))
+            if hits:
+                return [tn, "|".join(hits)]        # more than one hit = a Store shared by two instances
+        return super().classify(ev)
+
+
+class Lazy:
+    """target of a driver created before its scheduler exists"""
+
+    def __init__(self, box, i):
+        self.box, self.i = box, i
+
+    def put(self, p):
+        return self.box[self.i].put(p)
+
+
+UID_STRIDE = 500
+
+
 class DistScript:
     def __init__(self, vals):
         self.vals = [ec.T(v) for v in vals]
@@ -80,7 +114,7 @@ def _hang(signum, frame):
 
 class MQPart:
     name = "mq"
-    kinds = ["sp", "rr", "wrr", "schedmon"]
+    kinds = ["sp", "rr", "wrr", "schedmon", "mq2"]
     serves = ["C12", "C13", "C15", "C08"]
     weight = 3
     coq_imports = ["From ONL Require Import Base.Cmp Elem.Packet Elem.StoreQ Elem.SchedBase Elem.SP Elem.RR Elem.WRR."]
@@ -90,7 +124,9 @@ class MQPart:
             "(occasionally with a repeated flow), rates 2^9..2^16 bit/s with sizes so that 8*size/rate is dyadic and "
             "transmission ends fall on the arrival lattice, 1-3 driver processes with bursts, idle gaps and `late` "
             "zero-delay yields, each driver created before or after the scheduler, optional Monitor with a scripted "
-            "sampling distribution and both service_included settings")
+            "sampling distribution and both service_included settings; kind mq2 (12%): TWO scheduler instances (same or mixed "
+            "types) in one Environment with interleaved workloads over shared flow / class ids, each replayed against its own "
+            "copy of the model, plus the independence monitor instances-interfere")
     nontrivial_rule = {
         "C12": _gen + "; non-trivial = at least 3 packets and some packet had to wait for an earlier transmission; distinct by hash",
         "C13": _gen + " (SP only); non-trivial = at some service decision classes of at least two priority levels were backlogged; distinct by hash",
@@ -120,6 +156,17 @@ class MQPart:
 
     # ---- generation -----------------------------------------------------------------------------
     def gen_case(self, rng, tier, prop_id):
+        if rng.random() < 0.12:
+            # two scheduler instances (also of different types) in ONE Environment, sharing flow / class ids
+            pool = {"C13": ["sp"], "C15": ["rr", "wrr"]}.get(prop_id, ["sp", "rr", "wrr"])
+            a = rng.choice(pool)
+            b = rng.choice(["sp", "rr", "wrr"] if rng.random() < 0.5 else pool)
+            nfl = rng.choice([1, 2, 2, 3, 4])
+            flows = rng.sample(range(0, 7), nfl)
+            subs = [self._gen_one(rng, x, x, flows, n_max=rng.choice([4, 6, 8])) for x in (a, b)]
+            if rng.random() < 0.5:
+                subs[1]["rate"] = subs[0]["rate"]
+            return {"kind": "mq2", "inst": subs}
         if prop_id == "C13":
             kind = rng.choice(["sp", "sp", "sp", "sp", "schedmon"])
             sched = "sp"
@@ -134,6 +181,10 @@ class MQPart:
             sched = kind if kind != "schedmon" else rng.choice(["sp", "rr", "wrr"])
         nfl = rng.choice([1, 2, 2, 3, 3, 4, 5])
         flows = rng.sample(range(0, 7), nfl)
+        return self._gen_one(rng, kind, sched, flows)
+
+    def _gen_one(self, rng, kind, sched, flows, n_max=None):
+        nfl = len(flows)
         cmap = None
         if sched == "sp":
             pset = rng.choice([[1, 2], [1, 2, 3], [1, 2, 3], [1, 5, 10], [2, 2, 7]])
@@ -155,7 +206,7 @@ class MQPart:
             classes = [[f, 1] for f in fl]
         rate = rng.choice([512, 1024, 1024, 2048, 4096, 4096, 8192, 65536])
         sizes = rng.choice([(64, 128, 256, 512), (64, 128, 256, 512, 1000, 1500), (128,), (64, 256)])
-        w = ec.gen_workload(rng, flows=tuple(flows), n_max=rng.choice([6, 10, 14]), sizes=sizes,
+        w = ec.gen_workload(rng, flows=tuple(flows), n_max=n_max or rng.choice([6, 10, 14]), sizes=sizes,
                             burst_p=rng.choice([0.35, 0.6, 0.8]))
         pre = [rng.random() < 0.3 for _ in w["drivers"]]
         mon = None
@@ -169,6 +220,162 @@ class MQPart:
 
     # ---- implementation -------------------------------------------------------------------------
     def run_impl(self, case):
+        if case["kind"] == "mq2":
+            return self._run_many(case["inst"])
+        return self._run_one(case)
+
+    @staticmethod
+    def _make(env, case):
+        rate, classes = case["rate"], case["classes"]
+        if case["sched"] == "sp":
+            from onl.scheduler.sp import SP
+            if case.get("cmap"):
+                m = {f: k for f, k in case["cmap"]}
+                return SP(env, rate, {k: p for k, p in classes}, flow2class=lambda f, m=m: m[f])
+            return SP(env, rate, {f: p for f, p in classes})
+        if case["sched"] == "rr":
+            from onl.scheduler.rr import RR
+            return RR(env, rate, [f for f, _ in classes])
+        from onl.scheduler.wrr import WRR
+        return WRR(env, rate, {f: wt for f, wt in classes})
+
+    def _run_many(self, subs):
+        """several instances in one Environment -> per instance an observation in the single-instance format (global clock
+        moves + its own put/step entries, sampled on its own public state) + interference notes"""
+        import contextlib
+        import io
+        import signal
+        import time
+        from onl.sim import Environment
+        env = Environment()
+        h = MQ2Harness(env)
+        n = len(subs)
+        tags = ["A", "B", "C"][:n]
+        box = [None] * n
+        for i, c in enumerate(subs):
+            h.add_packets({str(int(u) + UID_STRIDE * i): spec for u, spec in c["workload"]["packets"].items()})
+
+        def bursts_of(i, d):
+            return [[t, [u + UID_STRIDE * i for u in uids]] for t, uids in d["bursts"]]
+        for i, c in enumerate(subs):
+            pre = c.get("pre") or [False] * len(c["workload"]["drivers"])
+            for d, p in zip(c["workload"]["drivers"], pre):
+                if p:
+                    h.add_driver(bursts_of(i, d), late=d["late"], target=Lazy(box, i))
+        sink = io.StringIO()
+        interfere = []
+        with contextlib.redirect_stdout(sink):
+            for i, c in enumerate(subs):
+                s = self._make(env, c)
+                s.out = h.tap("out@" + tags[i])
+                s.proc._generator.__name__ = "run@" + tags[i]
+                orig = s.send_packet
+
+                def send_packet(packet, orig=orig, tag=tags[i]):
+                    g = orig(packet)
+                    g.__name__ = "send_packet@" + tag
+                    return g
+                s.send_packet = send_packet
+                box[i] = s
+            h.insts, h.tags = tuple(box), tuple(tags)
+            h.attach(box[0])
+            flows = [cfg_flows(c) for c in subs]
+            klasses = [cfg_classes(c) for c in subs]
+
+            def sample():
+                out = []
+                for i, s in enumerate(box):
+                    q = [[f, s.queue_count.get(f, 0), s.queue_byte_size.get(f, 0)] for f in flows[i]]
+                    st = [[k, len(s.stores[k].items) if k in s.stores else 0] for k in klasses[i]]
+                    cur = s.current_packet
+                    cu = None if cur is None else getattr(cur, "uid", -1)
+                    pub = [sorted(s.stores.keys()), sorted(s.queue_count.items()), sorted(s.queue_byte_size.items()),
+                           [[k, len(v.items)] for k, v in sorted(s.stores.items())]]
+                    out.append([q, cu, s.packets_received, len(s.packets_available.items), s.total_packets, [], st, pub])
+                return out
+            h.after_action(sample)
+            for i, c in enumerate(subs):
+                pre = c.get("pre") or [False] * len(c["workload"]["drivers"])
+                for d, p in zip(c["workload"]["drivers"], pre):
+                    if not p:
+                        h.add_driver(bursts_of(i, d), late=d["late"], target=box[i])
+            old_h = signal.signal(signal.SIGALRM, _hang)
+            t0 = time.time()
+            old_t = signal.setitimer(signal.ITIMER_REAL, 2.0)
+            try:
+                log = h.run(max_steps=40000, until=HORIZON)
+            finally:
+                left = max(old_t[0] - (time.time() - t0), 0.05) if old_t[0] else 0
+                signal.signal(signal.SIGALRM, old_h)
+                signal.setitimer(signal.ITIMER_REAL, left)
+        # ---- split the global log
+        logs = [[] for _ in range(n)]
+        prev = None
+
+        def local(i, smp):
+            q, cu, rec, tok, tot, m, st, _pub = smp
+            if cu is not None:
+                if cu // UID_STRIDE != i:
+                    interfere.append(f"instances-interfere: current_packet of instance {tags[i]} is packet {cu % UID_STRIDE} of "
+                                     f"instance {tags[cu // UID_STRIDE] if 0 <= cu // UID_STRIDE < n else '?'}")
+                cu = cu % UID_STRIDE
+            return [q, cu, rec, tok, tot, m, st]
+
+        def strip(t):
+            for tg in tags:
+                t = t.replace("@" + tg, "")
+            return t
+        for e in log:
+            kind, samples = e[0], e[-1]
+            who = None
+            if kind == "adv":
+                for i in range(n):
+                    logs[i].append(["adv", e[1], local(i, samples[i])])
+            elif kind == "put":
+                who = e[1] // UID_STRIDE
+                logs[who].append(["put", e[1] % UID_STRIDE, e[2], local(who, samples[who])])
+                if e[2]:
+                    interfere.append(f"instances-interfere: put() of instance {tags[who]} forwarded {e[2]}")
+            elif kind in ("step", "raise"):
+                tn, tgt = e[1] if e[1] is not None else ("?", "?")
+                owners = [i for i in range(n) if ("@" + tags[i]) in tgt]
+                if kind == "raise" and len(owners) != 1:
+                    for i in range(n):
+                        logs[i].append(["raise", [tn, strip(tgt)], [], e[3], local(i, samples[i])])
+                    continue
+                if len(owners) != 1:
+                    interfere.append(f"instances-interfere: kernel step {e[1]} belongs to {len(owners)} instances "
+                                     f"(a Store or process shared between them)")
+                    continue
+                who = owners[0]
+                outs = []
+                for o in e[2]:
+                    if o[1] != "out@" + tags[who]:
+                        interfere.append(f"instances-interfere: a step of instance {tags[who]} delivered packet {o[2]} to tap {o[1]}")
+                    if o[2] is None or o[2] // UID_STRIDE != who:
+                        interfere.append(f"instances-interfere: instance {tags[who]} forwarded packet {o[2]} of another instance")
+                        continue
+                    outs.append([o[0], "out", o[2] % UID_STRIDE] + list(o[3:]))
+                if kind == "step":
+                    logs[who].append(["step", [tn, strip(tgt)], outs, local(who, samples[who])])
+                else:
+                    logs[who].append(["raise", [tn, strip(tgt)], outs, e[3], local(who, samples[who])])
+            if prev is not None and not interfere:
+                for i in range(n):
+                    if i != who and prev[i][7] != samples[i][7] or (i != who and prev[i][:5] != samples[i][:5]):
+                        interfere.append(f"instances-interfere: a {kind} action of instance {tags[who] if who is not None else '-'} "
+                                         f"({e[1]}) changed the public state of instance {tags[i]}: "
+                                         f"{[prev[i][0], prev[i][1], prev[i][7]]} -> {[samples[i][0], samples[i][1], samples[i][7]]}")
+                        break
+            prev = samples
+        rest = [type(e[3]).__name__ for e in env._queue]
+        multi = []
+        for i in range(n):
+            raised = h.raised if any(x[0] == "raise" for x in logs[i]) else None
+            multi.append({"log": logs[i], "raised": raised, "exhausted": not rest, "stdout": ""})
+        return {"multi": multi, "interfere": interfere[:3], "raised": h.raised, "stdout": sink.getvalue()[:200]}
+
+    def _run_one(self, case):
         import contextlib
         import io
         from onl.sim import Environment
@@ -309,6 +516,10 @@ class MQPart:
         return acts, None
 
     def agree_term(self, case, obs):
+        if case["kind"] == "mq2":
+            if obs["interfere"]:
+                return "false (* instances interfere *)"
+            return "(" + ")\n  && (".join(self.agree_term(c, o) for c, o in zip(case["inst"], obs["multi"])) + ")"
         if obs["raised"]:
             return "false"
         acts, err = self._actions(case, obs)
@@ -414,6 +625,19 @@ class MQPart:
         return W
 
     def monitor(self, case, obs, prop_id):
+        if case["kind"] == "mq2":
+            msgs = list(obs["interfere"])
+            for i, (c, o) in enumerate(zip(case["inst"], obs["multi"])):
+                for m in self.monitor(c, o, prop_id):
+                    sig, _, rest = m.partition(":")
+                    msgs.append(f"{sig}: [instance {'AB'[i]}: {c['sched']}]{rest}")
+            out, seen = [], set()
+            for m in msgs:
+                k = m.split(":")[0]
+                if k not in seen:
+                    seen.add(k)
+                    out.append(m)
+            return out[:4]
         specs = case["workload"]["packets"]
         flows = cfg_flows(case)
         klasses = cfg_classes(case)
@@ -550,6 +774,8 @@ class MQPart:
         return msgs
 
     def nontrivial(self, case, obs, prop_id):
+        if case["kind"] == "mq2":
+            return not obs["interfere"] and any(self.nontrivial(c, o, prop_id) for c, o in zip(case["inst"], obs["multi"]))
         if len(case["workload"]["packets"]) < 3 or obs["raised"]:
             return False
         W = self._walk(case, obs)
@@ -570,6 +796,12 @@ class MQPart:
         return any(ev["deq"] and W["arr_time"][ev["deq"][1]] < ev["now"] for ev in W["events"])
 
     def shrink(self, case):
+        if case["kind"] == "mq2":
+            subs = case["inst"]
+            for i in range(len(subs)):
+                for c in self.shrink(subs[i]):
+                    yield {**case, "inst": subs[:i] + [c] + subs[i + 1:]}
+            return
         for w in ec.shrink_workload(case["workload"]):
             nd = len(w["drivers"])
             c = {**case, "workload": w}
@@ -600,6 +832,9 @@ class MQPart:
             yield {**case, "pre": [False] * len(case["workload"]["drivers"])}
 
     def describe(self, case, obs):
+        if case["kind"] == "mq2":
+            return ["mq2", "mq2:" + "+".join(c["sched"] for c in case["inst"]),
+                    "mq2:packets=%d" % min(sum(len(c["workload"]["packets"]) for c in case["inst"]), 20)]
         k = case["kind"]
         keys = [k, f"{k}:sched={case['sched']}", f"{k}:classes={len(case['classes'])}",
                 f"{k}:packets={min(len(case['workload']['packets']), 14)}", f"{k}:drivers={len(case['workload']['drivers'])}",
